@@ -105,6 +105,7 @@ type ArrState struct {
 	C     Content        // scalar elements
 	Elems map[string]Val // composite elements, by index term (copy on write)
 	Ver   string         // identity of composite content (sort U)
+	Base  string         // name stem of the functions giving the scalar leaves of unwritten elements
 }
 
 // Content is functional array content with scalar elements.
@@ -233,6 +234,7 @@ type State struct {
 	// events: calls made on this path (for evidence / ghost reasoning)
 	trace []string
 	fs    map[int]*FState
+	ghost map[string]string // ghost field "name|identity term" -> value (sort U)
 }
 
 func newState() *State {
@@ -251,6 +253,12 @@ func (s *State) clone() *State {
 	n.trace = s.trace[:len(s.trace):len(s.trace)]
 	if s.fs != nil {
 		n.fs = cloneFS(s.fs)
+	}
+	if s.ghost != nil {
+		n.ghost = make(map[string]string, len(s.ghost))
+		for k, v := range s.ghost {
+			n.ghost[k] = v
+		}
 	}
 	return n
 }
@@ -337,7 +345,8 @@ func (w *World) freshArrState(elem types.Type, name string) ArrState {
 	if wd, ok := scalarWidth(elem); ok {
 		return ArrState{C: w.freshBase(wd, name)}
 	}
-	return ArrState{Ver: w.st.fresh("ver_"+name, sortU)}
+	w.nobj++
+	return ArrState{Ver: w.st.fresh("ver_"+name, sortU), Base: fmt.Sprintf("e%d_%s", w.nobj, sanitize(name))}
 }
 
 func (w *World) zeroArrState(elem types.Type) ArrState {
@@ -590,6 +599,8 @@ func (w *World) elemVal(s *State, a *ArrObj, idx string) Val {
 	var v Val
 	if _, zero := as.Elems["*zero*"]; zero {
 		v = w.toMem(s, w.zero(s, a.Elem), nil)
+	} else if as.Base != "" {
+		v = w.freshElem(s, as.Base, a.Elem, idx, "")
 	} else {
 		v = w.fresh(s, a.Elem, fmt.Sprintf("%s_el", a.Sym), OrigMem)
 	}
@@ -820,6 +831,7 @@ func (w *World) havocReach(s *State, v Val, seen map[interface{}]bool) {
 		if x.Val != nil {
 			w.havocReach(s, x.Val, seen)
 		}
+		w.ghostHavoc(s, x.U)
 	case VFunc:
 		for _, b := range x.Bindings {
 			w.havocReach(s, b, seen)
@@ -990,4 +1002,78 @@ func describe(v Val) string {
 		return x.T
 	}
 	return fmt.Sprintf("%T", v)
+}
+
+// freshElem creates the (in-memory) value of an unwritten composite array
+// element: scalar leaves are applications of per-array functions to the index,
+// so that facts quantified over indices connect to concrete reads.
+func (w *World) freshElem(s *State, base string, t types.Type, idx, path string) Val {
+	uf := func(sort string) string {
+		name := "uf_" + base + path
+		w.st.declare(name, []string{bvSort(64)}, sort)
+		return app(name, idx)
+	}
+	switch tt := under(t).(type) {
+	case *types.Basic:
+		if wd, ok := scalarWidth(tt); ok {
+			return VInt{T: uf(bvSort(wd)), W: wd}
+		}
+		switch {
+		case tt.Info()&types.IsBoolean != 0:
+			return VBool{T: uf(sortBool)}
+		case tt.Info()&types.IsString != 0:
+			l := uf(bvSort(64))
+			s.assume(lenInv(l, l))
+			return VStr{C: w.freshBase(8, base+path), Off: bvLit(0, 64), Len: l}
+		}
+	case *types.Pointer:
+		p := VPtr{Root: w.newObj(tt.Elem(), base+path), Origin: OrigMem, U: w.st.fresh(base+path+"_p", sortU)}
+		name := "uf_" + base + path + "_isnil"
+		w.st.declare(name, []string{bvSort(64)}, sortBool)
+		p.Nil = app(name, idx)
+		return p
+	case *types.Slice:
+		lname, cname, nname := "uf_"+base+path+"_len", "uf_"+base+path+"_cap", "uf_"+base+path+"_isnil"
+		w.st.declare(lname, []string{bvSort(64)}, bvSort(64))
+		w.st.declare(cname, []string{bvSort(64)}, bvSort(64))
+		w.st.declare(nname, []string{bvSort(64)}, sortBool)
+		l, c, n := app(lname, idx), app(cname, idx), app(nname, idx)
+		s.assume(lenInv(l, c))
+		s.assume(mkImp(n, mkEq(c, bvLit(0, 64))))
+		a := w.newArr(tt.Elem(), base+path)
+		s.arrs[a] = w.freshArrState(tt.Elem(), base+path)
+		return VSlice{A: a, Off: bvLit(0, 64), Len: l, Cap: c, Nil: n}
+	case *types.Struct:
+		f := make([]Val, tt.NumFields())
+		for i := range f {
+			f[i] = w.freshElem(s, base, tt.Field(i).Type(), idx, path+"."+tt.Field(i).Name())
+		}
+		return VStruct{F: f}
+	}
+	return w.fresh(s, t, base+path, OrigMem)
+}
+
+// Ghost fields: specification-only state attached to an identity (an
+// interface value, a pointer): e.g. the bytes absorbed by a hash.Hash.
+func (w *World) ghostGet(s *State, field, id string) string {
+	if v, ok := s.ghost[field+"|"+id]; ok {
+		return v
+	}
+	fn := w.st.declare("gf_"+field, []string{sortU}, sortU)
+	return app(fn, id)
+}
+
+func (w *World) ghostSet(s *State, field, id, val string) {
+	if s.ghost == nil {
+		s.ghost = map[string]string{}
+	}
+	s.ghost[field+"|"+id] = val
+}
+
+func (w *World) ghostHavoc(s *State, id string) {
+	for k := range s.ghost {
+		if strings.HasSuffix(k, "|"+id) {
+			s.ghost[k] = w.st.fresh("gh", sortU)
+		}
+	}
 }
